@@ -8,11 +8,15 @@
 package ledgerops
 
 import (
+	"com.tuntun.rangers/node/src/middleware"
+	"com.tuntun.rangers/node/src/service"
 	"crypto/sha256"
 	"encoding/hex"
 	"encoding/json"
 	"fmt"
+	"math"
 	"math/big"
+	"sort"
 	"strconv"
 
 	"com.tuntun.rangers/node/src/common"
@@ -35,7 +39,8 @@ const refundGap = 36000
 // universal contract runtime: word0 of the call data = target address, word1 = mode
 //
 //	0 forward CALLVALUE to target; 1 forward then REVERT; 2 SELFDESTRUCT(target); 3 CREATE child with CALLVALUE;
-//	4 CALL target with value = word2; 5 CREATE child with value = word2; 6 CALLCODE target with value = word2
+//	4 CALL target with value = word2; 5 CREATE child with value = word2; 6 CALLCODE target with value = word2;
+//	7 UNSTAKE(self, word2); 8 STAKE(self, word2); 9 UNSTAKEALL(self)
 //
 // (assembled by buildRuntime)
 func BuildRuntime() []byte {
@@ -47,7 +52,7 @@ func BuildRuntime() []byte {
 	jumpi := func(l string) { emit(0x60, 0xff, 0x57); patches[l] = append(patches[l], len(code)-2) }
 	label := func(l string) { labels[l] = len(code); emit(0x5b) }
 	emit(0x60, 0x20, 0x35) // mode
-	for m, l := range []string{"", "", "sd", "cr", "cx", "crx", "ccx"} {
+	for m, l := range []string{"", "", "sd", "cr", "cx", "crx", "ccx", "unst", "stk", "unall"} {
 		if l != "" {
 			emit(0x80, 0x60, byte(m), 0x14)
 			jumpi(l)
@@ -70,6 +75,14 @@ func BuildRuntime() []byte {
 	emit(0x60, 0x00, 0x60, 0x00, 0x60, 0x40, 0x35, 0xf0, 0x50, 0x00)
 	label("ccx") // CALLCODE(gas, target, word2, 0, 0, 0, 0)
 	emit(0x60, 0x00, 0x60, 0x00, 0x60, 0x00, 0x60, 0x00, 0x60, 0x40, 0x35, 0x60, 0x00, 0x35, 0x5a, 0xf2, 0x50, 0x00)
+	// the node's own stake opcodes, executed by a contract that is the account of a miner:
+	// UNSTAKE / STAKE (address below the amount on the stack), UNSTAKEALL(address)
+	label("unst")
+	emit(0x30, 0x60, 0x40, 0x35, 0xef, 0x50, 0x00)
+	label("stk")
+	emit(0x30, 0x60, 0x40, 0x35, 0xee, 0x50, 0x00)
+	label("unall")
+	emit(0x30, 0xeb, 0x50, 0x00)
 	for l, ps := range patches {
 		at, ok := labels[l]
 		if !ok || at > 255 {
@@ -111,6 +124,10 @@ type World struct {
 	minerOf   map[int][]byte // source id -> miner id staked by it
 	stakeOf   map[int]int
 	RefundHts []uint64
+	expect    map[uint64]*big.Int // refund height -> wei that left stake records for that height
+	cMiner    map[int][]byte      // contract id -> miner it is the account of
+	cStake    map[int]int
+	allMiners [][]byte
 	seq       uint64
 	contract  common.Address // token contract
 	n         int
@@ -188,6 +205,10 @@ func (w *World) Step(tr *vutil.Trace, o AbsOp, amount string, gas string) *execd
 	}
 	var tx *types.Transaction
 	var tx2, tx3 *types.Transaction
+	refundWant := -2 // tokens the Refund op asks for (-1: more than the stake, -2: not a refund)
+	conStake, conOp := false, ""
+	var conId []byte
+	var conWei *big.Int
 	lock := 0
 	burn := []int{}
 	kind := o.Op
@@ -300,6 +321,9 @@ func (w *World) Step(tr *vutil.Trace, o AbsOp, amount string, gas string) *execd
 		if o.V >= 2 {
 			typ, stake = 1, 2000
 		}
+		if w.seq%2 == 0 { // above the minimum: a part can be refunded without aborting the miner
+			stake += stake / 4
+		}
 		m := types.Miner{Id: id[:], PublicKey: make([]byte, 128), VrfPublicKey: make([]byte, 32), Type: byte(typ), Stake: uint64(stake),
 			Account: common.FromHex(src)}
 		m.PublicKey[0], m.VrfPublicKey[0] = 1, 1
@@ -308,17 +332,75 @@ func (w *World) Step(tr *vutil.Trace, o AbsOp, amount string, gas string) *execd
 		lock = stake
 		w.minerOf[o.A] = id[:]
 		w.stakeOf[o.A] = stake
+		w.allMiners = append(w.allMiners, id[:])
 	case "Refund":
 		id, ok := w.minerOf[o.A]
 		if !ok {
 			id = make([]byte, 32)
 		}
-		d, _ := json.Marshal(map[string]string{"Amount": "18446744073709551615", "MinerId": common.ToHex(id)})
+		// everything (the MaxUint64 sentinel), a part that keeps the miner above its minimum, or a
+		// part that leaves less than the minimum (the miner is aborted, the rest stays locked and
+		// can be refunded later)
+		amt := "18446744073709551615"
+		want := w.stakeOf[o.A]
+		switch o.V % 3 {
+		case 1:
+			amt, want = "50", 50
+		case 2:
+			amt, want = "200", 200
+		}
+		if want > w.stakeOf[o.A] {
+			want = -1 // more than the stake: must be refused
+		}
+		refundWant = want
+		d, _ := json.Marshal(map[string]string{"Amount": amt, "MinerId": common.ToHex(id)})
 		tx = execdrv.NewTx(types.TransactionTypeMinerRefund, src, "", string(d), "", w.seq, salt)
+	case "ConStake":
+		// a miner whose account is a contract (the apply names it explicitly): only the contract's
+		// code can add to or take from that stake, through the node's STAKE / UNSTAKE opcodes
+		id := sha256.Sum256([]byte("c" + salt))
+		stake := 550
+		m := types.Miner{Id: id[:], PublicKey: make([]byte, 128), VrfPublicKey: make([]byte, 32), Type: 0, Stake: uint64(stake),
+			Account: common.FromHex(w.addr[o.B])}
+		m.PublicKey[0], m.VrfPublicKey[0] = 1, 1
+		d, _ := json.Marshal(m)
+		tx = execdrv.NewTx(types.TransactionTypeMinerApply, src, "", string(d), "", w.seq, salt)
+		lock = stake
+		conStake = true
+		conId = id[:]
+		w.allMiners = append(w.allMiners, id[:])
+	case "ConUnstake", "ConAddStake", "ConUnstakeAll":
+		// V picks the amount in wei: half a token, one token, one and a half, 100 tokens, the whole stake
+		callee := w.addr[o.B]
+		have := w.cStake[o.B]
+		wei := new(big.Int)
+		switch o.V % 7 {
+		case 5: // the "everything" sentinel of the refund interface, as whole tokens in wei
+			wei.Mul(new(big.Int).SetUint64(math.MaxUint64), new(big.Int).Exp(big.NewInt(10), big.NewInt(18), nil))
+		case 6: // the whole stake and a fraction
+			wei.Mul(big.NewInt(int64(have)), new(big.Int).Exp(big.NewInt(10), big.NewInt(18), nil))
+			wei.Add(wei, big.NewInt(999999999999999999))
+		case 0:
+			wei.SetString("500000000000000000", 10)
+		case 1:
+			wei.SetString("1000000000000000000", 10)
+		case 2:
+			wei.SetString("1500000000000000000", 10)
+		case 3:
+			wei.SetString("100000000000000000000", 10)
+		case 4:
+			wei.Mul(big.NewInt(int64(have)), new(big.Int).Exp(big.NewInt(10), big.NewInt(18), nil))
+		}
+		mode := map[string]byte{"ConUnstake": 7, "ConAddStake": 8, "ConUnstakeAll": 9}[o.Op]
+		abi := append(append(word(common.FromHex(callee)), word([]byte{mode})...), word(wei.Bytes())...)
+		tx = execdrv.NewTx(types.TransactionTypeContract, src, callee, contractData(amount, abi, gas), "", w.seq, salt)
+		conOp, conWei = o.Op, wei
+		kind = fmt.Sprintf("%s.%d", o.Op, o.V%7)
 	case "Mature":
 		// handled by the caller (block at a scheduled height)
 	}
 	matured := [][]int{}
+	expectMatured := []int{}
 	h := w.height
 	if o.Op == "Mature" {
 		if len(w.RefundHts) == 0 {
@@ -328,6 +410,9 @@ func (w *World) Step(tr *vutil.Trace, o AbsOp, amount string, gas string) *execd
 		h = w.RefundHts[0]
 		w.RefundHts = w.RefundHts[1:]
 		matured = w.escrowAt(h)
+		if e := w.expect[h]; e != nil {
+			expectMatured = execdrv.Digits(e)
+		}
 	}
 	extraPlus, extraMinus := [][]int{}, [][]int{}
 	if o.Op == "MatureRewards" {
@@ -351,10 +436,47 @@ func (w *World) Step(tr *vutil.Trace, o AbsOp, amount string, gas string) *execd
 			list = append(list, tx3)
 		}
 	}
+	stakeBefore := w.totalStake()
 	res := execdrv.Execute(w.St, h, list)
 	ok := tx == nil || res.Ok(tx.Hash)
+	// what the registry records is what is locked: tokens that entered stake records in this block
+	// must have left liquid balances, tokens that left them must be paid out - once - at the
+	// refund height
+	stakeAfter := w.totalStake()
+	lock = 0
+	if stakeAfter > stakeBefore {
+		lock = int(stakeAfter - stakeBefore)
+	} else if stakeAfter < stakeBefore {
+		rh := h + refundGap
+		if w.expect[rh] == nil {
+			w.expect[rh] = new(big.Int)
+			w.RefundHts = append(w.RefundHts, rh)
+			sort.Slice(w.RefundHts, func(a, b int) bool { return w.RefundHts[a] < w.RefundHts[b] })
+		}
+		w.expect[rh].Add(w.expect[rh], new(big.Int).Mul(new(big.Int).SetUint64(stakeBefore-stakeAfter), new(big.Int).Exp(big.NewInt(10), big.NewInt(18), nil)))
+	}
+	_, _ = refundWant, conWei
+	if (conOp != "" || o.Op == "Refund") && w.expect[h+refundGap] == nil {
+		// whether or not a stake record changed: whatever is paid out at the refund height must be
+		// what left the stake records (possibly nothing)
+		rh := h + refundGap
+		w.expect[rh] = new(big.Int)
+		w.RefundHts = append(w.RefundHts, rh)
+		sort.Slice(w.RefundHts, func(a, b int) bool { return w.RefundHts[a] < w.RefundHts[b] })
+	}
+	if conStake && ok {
+		w.cMiner[o.B] = conId
+	}
+	for b, id := range w.cMiner {
+		w.cStake[b] = int(w.registered(id))
+	}
+	for a, id := range w.minerOf {
+		w.stakeOf[a] = int(w.registered(id))
+		if w.stakeOf[a] == 0 {
+			delete(w.minerOf, a)
+		}
+	}
 	if !ok {
-		lock = 0
 		burn = []int{}
 		if o.Op == "Stake" {
 			delete(w.minerOf, o.A)
@@ -371,9 +493,17 @@ func (w *World) Step(tr *vutil.Trace, o AbsOp, amount string, gas string) *execd
 		w.isCon[o.B] = false
 		w.addr[o.B] = eoa[o.B]
 	}
-	if ok && o.Op == "Refund" {
-		w.RefundHts = append(w.RefundHts, h+refundGap)
-		delete(w.minerOf, o.A)
+	// the next block runs on a fresh AccountDB opened at this block's root, as in the node (where a
+	// block is executed on the state of its parent): account objects deleted at the end of a block
+	// must not linger in the object cache of the following ones
+	if root, err := w.St.Commit(true); err == nil {
+		if st, err := middleware.AccountDBManagerInstance.GetAccountDBByHash(root); err == nil {
+			w.St = st
+		} else {
+			vutil.Fatalf("reopen state at %s: %v", root.Hex(), err)
+		}
+	} else {
+		vutil.Fatalf("commit state: %v", err)
 	}
 	msg := ""
 	if len(res.Receipts) == 1 {
@@ -386,12 +516,30 @@ func (w *World) Step(tr *vutil.Trace, o AbsOp, amount string, gas string) *execd
 		return res
 	}
 	tr.Emit(map[string]interface{}{"event": "Block", "kind": kind, "ok": ok, "amount": amount, "height": int(h % 1000000), "lockTokens": lock,
-		"burn": burn, "matured": matured, "extraPlus": extraPlus, "extraMinus": extraMinus, "slots": w.Slots(), "named": w.Named(), "msg": msg})
+		"burn": burn, "matured": matured, "expectMatured": expectMatured, "extraPlus": extraPlus, "extraMinus": extraMinus, "slots": w.Slots(), "named": w.Named(), "msg": msg})
 	return res
 }
 
+// registered: the stake the registry records for a miner this world created (0 when it is gone)
+func (w *World) registered(id []byte) uint64 {
+	if m := service.MinerManagerImpl.GetMiner(id, w.St); m != nil {
+		return m.Stake
+	}
+	return 0
+}
+
+// totalStake: sum of the registered stakes of every miner this world ever created
+func (w *World) totalStake() uint64 {
+	t := uint64(0)
+	for _, id := range w.allMiners {
+		t += w.registered(id)
+	}
+	return t
+}
+
 func NewWorld(n int) *World {
-	w := &World{St: execdrv.FreshState(), addr: map[int]string{}, isCon: map[int]bool{}, minerOf: map[int][]byte{}, stakeOf: map[int]int{}, n: n}
+	w := &World{St: execdrv.FreshState(), addr: map[int]string{}, isCon: map[int]bool{}, minerOf: map[int][]byte{}, stakeOf: map[int]int{}, n: n,
+		expect: map[uint64]*big.Int{}, cMiner: map[int][]byte{}, cStake: map[int]int{}}
 	for i := 1; i <= 3; i++ {
 		w.addr[i] = eoa[i]
 	}
